@@ -33,7 +33,7 @@ func init() {
 func runC03(c *Ctx) {
 	r := c.R
 	r.Rule("R03-balance", "in every function outside the board package that pushes moves, on every control path the pushes that succeeded are popped again: depth 0 at each return, consistent at joins, exactly 1 at each child search", 4)
-	r.Rule("R03-negamax", "the recursive call searches depth-1 with (Negate(beta), Negate(current alpha)); the child's score reaches comparisons only as Negate(IncrementMateDistance(child)); alpha is replaced only by such a score under alpha.Less(score) (or Max); the cut-off test is alpha == beta or beta.Less(alpha); the PV is move :: child PV under the same guard", 3)
+	r.Rule("R03-negamax", "the recursive call searches depth-1 with (Negate(beta), Negate(current alpha)); the child's score reaches comparisons only as Negate(IncrementMateDistance(child)); alpha is replaced only by such a score under alpha.Less(score) (or Max); the cut-off test is alpha == beta or beta.Less(alpha); the PV is move :: child PV under the same guard; the move loop is left early only on that cut-off or on cancellation", 3)
 	r.Rule("R03-terminal", "the mate/stalemate verdict is returned exactly on paths where no push succeeded, -inf iff checkmate else zero; a drawn node returns zero before anything else; no node returns on a cut-off before a move was tried or the verdict produced", 5)
 	r.Rule("R03-order", "move ordering is a permutation: NewMoveList copies each input move once, Next pops until empty, the heap never grows, priorities only read the move", 4)
 
